@@ -104,6 +104,16 @@ func processAllClients(op func(id int64, cs *clientState)) {
 	}
 }
 
+// visits the clients of one emulator (the registry is shared by all the
+// emulators of the process)
+func processEmulatorClients(dss *dataStoreSet, op func(id int64, cs *clientState)) {
+	processAllClients(func(id int64, cs *clientState) {
+		if cs.dss == dss {
+			op(id, cs)
+		}
+	})
+}
+
 func (cs *clientState) unregister() {
 	clientsMu.Lock()
 	defer clientsMu.Unlock()
